@@ -158,6 +158,6 @@ func init() {
 	c.Phases = append(c.Phases, sqlExtraPhases(evalC10, false)...)
 }
 
-var c10Templates = []string{"1 or W()", "1 or W(1)", "1; W(1)", "1; W 1=1", "1 union select W()", "@W(1)", "1 W 1", "1 W (1)", "1 or 1 W (1)", "select W from x", "1 W outfile 'x'", "x' W outfile 'y", "1 or W", "1 or W=1 --"}
+var c10Templates = []string{"1 or W()", "1 or W(1)", "1; W(1)", "1; W 1=1", "1 union select W()", "@W(1)", "1 W 1", "1 W (1)", "1 or 1 W (1)", "select W from x", "1 W outfile 'x'", "x' W outfile 'y", "1 or W", "1 or W=1 --", "1 and @W()=1", "1 union select @W()", "1 union W 1", "1 union all W\xff 1"}
 var c10Words = []string{"user", "user_id", "user_name", "database", "password", "current_user", "current_date", "current_time", "current_timestamp", "localtime", "localtimestamp",
-	"in", "not in", "like", "not like", "not", "into", "if", "u&'s'", "n's'", "e's'", "x'1f'", "b'01'", "0x1f", "0b01", "1e5", "1.5d", "1f", "q'(s)'", "nq'[s]'", "sleep", "union", "collate a_b", "x'1f"}
+	"in", "not in", "like", "not like", "not", "into", "if", "u&'s'", "n's'", "e's'", "x'1f'", "b'01'", "0x1f", "0b01", "1e5", "1.5d", "1f", "q'(s)'", "nq'[s]'", "sleep", "union", "collate a_b", "x'1f", "select.\xff", "select`\xff", "select.\u0131", "select.a"}
